@@ -374,6 +374,8 @@ def check_format_input_vector2(
         inp,
         f"Input parameter `{param_name}` must contain only float compatible entries.\n",
     )
+    if inp.ndim != len(shape):
+        raise ValueError(f"Input parameter `{param_name}` has bad shape.")
     for d1, d2 in zip(inp.shape, shape):
         if d2 is not None:
             if d1 != d2:
